@@ -81,6 +81,25 @@ theorem block_returns_only_when_acquired (t : Table) (ofd : Nat) :
   · have ha' : t.holders.all (· = ofd) = false := by simpa using ha
     right; simp [ha']
 
+/-- Signals are transparent: however many `flock` calls are interrupted (EINTR), `zix_file_lock`
+ends exactly as the uninterrupted call does — in BLOCK mode still only by holding the lock — after
+one more `flock` call per interruption.  Rests on the regenerated fact that the source retries. -/
+theorem lock_interrupts_transparent (t : Table) (ofd : Nat) (mode : Mode) (k : Nat) :
+    fileLockSig t ofd mode k = ((fileLock t ofd mode).1, (fileLock t ofd mode).2, k + 1) := by
+  have hr : lockRetriesOnEintr = true := by decide
+  induction k with
+  | zero => simp [fileLockSig]
+  | succ k ih => simp [fileLockSig, hr, ih]
+
+/-- In particular an interrupted BLOCK request never returns without the lock. -/
+theorem block_interrupted_returns_only_when_acquired (t : Table) (ofd : Nat) (k : Nat) :
+    ((fileLockSig t ofd .block k).2.1 = some 0 ∧ (fileLockSig t ofd .block k).1.holders = [ofd]) ∨
+    ((fileLockSig t ofd .block k).2.1 = none ∧ (fileLockSig t ofd .block k).1.holders = t.holders) := by
+  rw [lock_interrupts_transparent]
+  rcases block_returns_only_when_acquired t ofd with h | h
+  · exact Or.inl h
+  · exact Or.inr ⟨h.1, h.2.1⟩
+
 /-- Unlock (in either mode) releases: afterwards the lock is free, so a later or waiting locker
 (any mode) succeeds at once. -/
 theorem unlock_releases (t : Table) (holder other : Nat) (m m' : Mode) (ht : t.holders = [holder]) :
@@ -97,6 +116,7 @@ theorem unlock_releases (t : Table) (holder other : Nat) (m m' : Mode) (ht : t.h
   unfold fileLock flock
   simp [hl.1, hl.2, h1.1]
 
+example : (fileLockSig ⟨[]⟩ 1 .block 3).1.holders = [1] ∧ (fileLockSig ⟨[]⟩ 1 .block 3).2 = (some 0, 4) := by decide
 example : (([.lock 1 .try_, .lock 2 .try_, .lock 2 .block, .unlock 1 .try_, .lock 2 .block] : List Op).foldl step ⟨[]⟩).holders = [2] := by decide
 
 end Zix.C19
